@@ -65,6 +65,10 @@ type TypeDecl struct {
 	Confined     bool
 	SyncMapViews map[string][2]string // field -> key type, value type
 	GhostFields  map[string]string    // ghost field name -> type text
+	JSONMembers  []string
+	JSONLabel    string
+	JSONLine     int
+	JSONFile     string
 }
 
 type SpecFunc struct {
@@ -436,6 +440,16 @@ func (cs *ContractSet) parseFile(path string) error {
 				}
 			case "confined":
 				td.Confined = true
+			case "jsonmembers":
+				// type T jsonmembers <label>: a, b?, c   (expected JSON member names, ? = omitempty)
+				p := strings.SplitN(strings.TrimPrefix(body, "jsonmembers"), ":", 2)
+				if len(p) != 2 {
+					return errf("bad jsonmembers")
+				}
+				td.JSONLabel = strings.TrimSpace(p[0])
+				td.JSONMembers = splitNames(p[1])
+				td.JSONLine = l.no
+				td.JSONFile = path
 			case "syncmap":
 				// type graphMap syncmap m: PipelineID -> *registeredPipeline
 				m := regexp.MustCompile(`^syncmap\s+(\w+)\s*:\s*(\S+)\s*->\s*(\S+)$`).FindStringSubmatch(body)
